@@ -130,6 +130,23 @@ CLAIMED = {
         "technique": "machine-checked proof in Rocq (Coq 8.16): push/pop normaliser = lexical walk + differential correspondence check",
         "design": "DESIGN.md §7 C17",
     },
+    "C18": {
+        "text": "PARTIAL by nature. Rocq theorem C18_reported over the output-phase model with a fault oracle (which of create / write / flush fails for which file): for every run of any number of "
+                "services and every placement of faults, a faulty file is in the error list, the exit status is 1, that service is not enabled and every fault-free service is still written completely and enabled; "
+                "C18_pinned_refuted (the dropped BufWriter lost the flush error). Which OS errors occur and when the buffer flushes is runtime behaviour: exercised end to end (directory in the way, "
+                "/dev/full behind the service path with small and >8 KiB units, read-only file as an unprivileged user, output directory not creatable) at every position of a 3-unit run; plus a write-site inventory.",
+        "note": "Trusted: Coq kernel; Model/Output.v as the reading of process/generate_service_file (tied by the site inventory and the end-to-end oracle); the kernel's error behaviour.",
+        "technique": "machine-checked proof in Rocq (Coq 8.16) over a fault-oracle model + end-to-end fault injection + write-site inventory",
+        "design": "DESIGN.md §7 C18",
+    },
+    "C19": {
+        "text": "Rocq theorems C19_serialisers_agree (write_to, call by call, emits exactly the text of to_string, for every unit), C19_no_effects (a dry run has no file-system effect, only prints; same errors and "
+                "exit status as accumulated before the output phase), C19_same_text (every printed block is the text a fault-free real run writes after the generated-by line). Over the output-phase model; "
+                "the tie is end to end: random trees of valid, wild and broken units run twice (dry and real) with before/after snapshots, block-by-block text comparison, exact byte count of stdout, error lines and exit status.",
+        "note": "Trusted: Coq kernel; Model/Output.v; the logger (only ERROR lines are compared, PID prefix stripped); name=value option runs compared sorted as the property allows.",
+        "technique": "machine-checked proof in Rocq (Coq 8.16) of the serialiser equality and the dry-run model + end-to-end double-run oracle",
+        "design": "DESIGN.md §7 C19",
+    },
     "C20": {
         "text": "Rocq theorem C20_exact: for every code-point string s, the model of the hand-written recogniser accepts s iff s is in the language "
                 "digits+ ('-' digits+)? ('/tcp'|'/udp')? stated declaratively (PortRe); full for the recogniser. Tied to /repo by differential runs "
